@@ -12,11 +12,12 @@ from .net import Endpoint, SimNet
 
 
 class TLSEngine:
-    def __init__(self, ctx: ssl.SSLContext, server_side: bool, server_hostname=None):
+    def __init__(self, ctx: ssl.SSLContext, server_side: bool, server_hostname=None, session=None):
         self.inb = ssl.MemoryBIO()
         self.outb = ssl.MemoryBIO()
+        kw = {"session": session} if (session is not None and not server_side) else {}
         self.obj = ctx.wrap_bio(self.inb, self.outb, server_side=server_side,
-                                server_hostname=server_hostname)
+                                server_hostname=server_hostname, **kw)
         self.hs_done = False
         self.got_close_notify = False
         self.error = None
@@ -96,14 +97,14 @@ class RawPeer:
 
     def __init__(self, net: SimNet, ep: Endpoint, script, *, tls_ctx=None, server_side=False,
                  server_hostname=None, reader="eager", read_rate=None, read_interval=0.05,
-                 read_pause_until=None, polite_close=True, coalesce_first=False, name="peer",
+                 read_pause_until=None, polite_close=True, coalesce_first=False, name="peer", tls_session=None,
                  keep_cipher=False):
         self.net = net
         self.ep = ep
         self.name = name
         self.script = list(script)
         self.pc = 0
-        self.eng = TLSEngine(tls_ctx, server_side, server_hostname) if tls_ctx else None
+        self.eng = TLSEngine(tls_ctx, server_side, server_hostname, tls_session) if tls_ctx else None
         self.server_side = server_side
         self.reader = reader
         self.read_rate = read_rate
